@@ -240,3 +240,6 @@ META = dict(
     assumptions=["IEEE rounding outside the claim except where both sides build the identical term (counted as structural)", "symbolic timestamps are C03/C12's job: here the grid is concrete"],
     explanation="bounded symbolic model checking of the real classes: every feasible path of batch+incremental runs over symbolic candles; equality of every stored leaf decided by z3 or by term identity",
 )
+
+# families added after the seeding rounds (kept next to the original bound so that MANIFEST / evidence stay current)
+META["bounds"] = dict(META["bounds"], quick=META["bounds"]["quick"] + "; added after the seeding rounds: " + '40-second grid; live-long T2 feeds of the recursive value-branching indicators; windows longer than the stream; doji wrapper with lookback None/1/2/4 over 13 candles; a Hexital with base + two further timeframes (7 candles, also Hexital-level T2, also Heikin-Ashi) fed Candle objects; Heikin-Ashi configurations also over an even number of candles')
